@@ -134,7 +134,6 @@ func tick(q any) {
 	}
 }
 
-
 // FromZero makes Build start from the zero value &T{} of each packet type
 // instead of the value of its New function (a program may fill in a packet
 // it declared with var or new).
